@@ -110,14 +110,14 @@ pub fn show(e: &[Entry]) -> String {
 /// Result of the reference conflict-aware append.
 #[derive(Clone, Debug, PartialEq, Eq)]
 pub enum ConflictAppend {
-    /// prev == (0,0): documented "reset and replace".
-    ResetReplace,
     /// prev does not match: log unchanged.
     Rejected,
-    /// prev matched. `truncated_from`: first index that was removed because of a term conflict;
-    /// `appended`: number of entries written; `retained_beyond`: entries above the request's last index
-    /// were kept (no conflict inside the request).
-    Accepted { truncated_from: Option<u64>, appended: usize, retained_beyond: bool },
+    /// prev matched ((0,0) is the virtual position that matches every log). `skipped_purged`: leading
+    /// request entries at or below the purge boundary (committed, covered by the snapshot) that were
+    /// ignored; `nothing_left`: all of them were; `truncated_from`: first index removed because of a
+    /// term conflict; `appended`: entries written; `retained_beyond`: entries above the request's last
+    /// index were kept (no conflict inside the request).
+    Accepted { skipped_purged: usize, nothing_left: bool, truncated_from: Option<u64>, appended: usize, retained_beyond: bool },
 }
 
 /// Plain reference log: present entries + purge boundary.
@@ -209,15 +209,25 @@ impl PlainLog {
         self.boundary = cutoff;
         self.boundary_ambiguous = false;
     }
-    /// Raft §5.3 conflict-aware append as documented on `RaftLog::filter_out_conflicts_and_append`.
+    /// Raft §5.3 conflict-aware append as documented in `filter_out_conflicts_and_append`:
+    /// (0,0) is the virtual position before the first entry and always matches; otherwise prev must
+    /// match (an entry or the purge boundary). Entries at or below the purge boundary are skipped.
+    /// Matching entries are kept, the first conflicting index truncates the suffix, nothing beyond the
+    /// request is discarded unless it conflicts.
     pub fn conflict_append(&mut self, prev_index: u64, prev_term: u64, es: &[Entry]) -> ConflictAppend {
-        if prev_index == 0 && prev_term == 0 {
-            self.reset();
-            self.append(es);
-            return ConflictAppend::ResetReplace;
-        }
-        if self.term_at(prev_index) != Some(prev_term) {
+        let virtual_prev = prev_index == 0 && prev_term == 0;
+        if !virtual_prev && self.term_at(prev_index) != Some(prev_term) {
             return ConflictAppend::Rejected;
+        }
+        let b = self.boundary.0;
+        let mut skipped_purged = 0;
+        let mut es: &[Entry] = es;
+        if b > 0 && es.first().is_some_and(|e| e.index <= b) {
+            skipped_purged = es.iter().take_while(|e| e.index <= b).count();
+            es = &es[skipped_purged..];
+            if es.is_empty() {
+                return ConflictAppend::Accepted { skipped_purged, nothing_left: true, truncated_from: None, appended: 0, retained_beyond: !self.entries.is_empty() };
+            }
         }
         let mut truncated_from = None;
         let mut appended = 0;
@@ -238,7 +248,7 @@ impl PlainLog {
             }
         }
         let req_last = es.last().map(|e| e.index).unwrap_or(prev_index);
-        ConflictAppend::Accepted { truncated_from, appended, retained_beyond: self.last() > req_last }
+        ConflictAppend::Accepted { skipped_purged, nothing_left: false, truncated_from, appended, retained_beyond: self.last() > req_last }
     }
 }
 
